@@ -28,7 +28,7 @@ META = {
                   "strings <= 2 chars, bools and kinds; the comparison-expression normaliser (flatten, order/dedupe, absorb, DNF, settle) is run by "
                   "CrossHair on 8 AST shapes whose atoms carry symbolic integer constants, negation flags and an operator, against a boolean "
                   "evaluator on a symbolic observed value; the full observation-level normaliser on 10 AND/OR/FOLLOWEDBY/WITHIN/REPEATS shapes with "
-                  "symbolic constants, observed values and timestamps against a binding-set evaluator; through the real parser: every pair of 23 "
+                  "symbolic constants, observed values and timestamps against a binding-set evaluator; through the real parser: every pair of 29 "
                   "generated pattern shapes over an atom table is checked for symmetry, reflexivity, soundness on a bounded universe of all "
                   "observation sequences of length <= 3 (values 1..3, 2 instants), and search = pairwise; transitivity over all triples; 17 "
                   "documented rewrites recognised and 8 non-equivalences kept apart; _mask_bytes for all 2^32 x 33 (thorough: also 2^128 x 129) "
@@ -39,7 +39,7 @@ META = {
     "technique": "CrossHair symbolic execution of the real comparators/normalisers on fixed-shape ASTs with symbolic constants vs independent "
                  "evaluators; enumerated pattern pairs through the real parser on a bounded universe; AST-to-SMT (pysym) for the CIDR mask kernel",
     "outside": ["ANTLR parsing", "LIKE/MATCHES/ISSUBSET/ISSUPERSET semantics", "patterns with more than 3 atoms / leaves", "START/STOP qualifiers",
-                "socket.inet_aton exotic forms"],
+                "address notations whose reading is ambiguous (zero-padded octets / prefix sizes, IPv6 zone ids and embedded IPv4)"],
     "assumptions": [FMT, ANTLR, SEM],
 }
 
@@ -69,15 +69,21 @@ def obligations(tier):
                        bounds="observation shape %d of 10, 3 leaves with symbolic int constants; 3 observations with symbolic values and instants in 0..2" % p))
     for p in range(8):
         obls.append(CH("pairs_sound_symmetric_search_p%d" % p, H, "pairs_sound", t, mode="E1s", functions=FE + FO[5:], stubs=[ANTLR, SEM], env={"VERIF_PART": str(p)},
-                       bounds="pattern shapes s1 %% 8 == %d x 23 shapes x atoms (%s); universe: sequences <= 3 obs, values 1..3, 2 instants" % (
+                       bounds="pattern shapes s1 %% 8 == %d x 29 shapes x atoms (%s); universe: sequences <= 3 obs, values 1..3, 2 instants" % (
                            p, "4x3" if tier == "quick" else "8x8x2")))
     if tier == "thorough":
         for p in range(8):
             obls.append(CH("transitive_p%d" % p, H, "transitive", t, mode="E1s", functions=FE, stubs=[ANTLR], env={"VERIF_PART": str(p)},
-                           bounds="all triples of 23 shapes (first shape %% 8 == %d) x 3x3 atoms" % p))
+                           bounds="all triples of 29 shapes (first shape %% 8 == %d) x 3x3 atoms" % p))
     obls.append(CH("documented_rewrites", H, "rewrites", t, mode="E1s", functions=FE, stubs=[ANTLR], bounds="17 documented rewrites (both directions), 8 non-equivalences"))
+    obls.append(CH("documented_rewrites_in_context", H, "rewrites_nested", t, mode="E1s", functions=FE + FT, stubs=[ANTLR],
+                   bounds="17 documented rewrites x 19 comparison-/observation-level contexts (one and two holes): C[p] ~ C[q] both directions and by search"))
     obls.append(CH("special_values_total", H, "specials_total", t, mode="E1s", functions=FS + FE, stubs=[ANTLR],
                    bounds="6 object paths x 18 constants of every kind x 4 operators x NOT"))
+    for p in list(range(7)) + list(range(7, 12)):
+        obls.append(CH("address_canonicalisation_sound_p%02d" % p, H, "specials_sound", t, mode="E1s", functions=FS + FE, stubs=[ANTLR], env={"VERIF_PART": str(p)},
+                   bounds="first address: " + ("ipv4 #%d" % p if p < 7 else "ipv6 #%d" % (p - 7)) + "; ipv4/ipv6 value comparisons: 7/5 addresses x 29 spellings (CIDR sizes, trailing/leading junk, signed/spaced/underscored/non-ASCII/zero-padded "
+                          "prefix sizes, short and hex forms) vs 7/5 addresses x 7 well-formed spellings: equivalent iff same network per an independent strict reading"))
     obls.append(JOB("cidr_mask_bytes", "props.j_mask", "job_mask", 900, functions=FS[:1],
                     bounds="all 2^32 addresses x 33 prefix sizes (quick); also all 2^128 x 129 (thorough); symbolic bytes and prefix"))
     return obls
